@@ -305,6 +305,39 @@ def cycle_through_connection(rng, case):
 
 
 @imut
+def cycle_among_imported_actions_only(rng, case):
+    """The added native checkpoint compares an imported action x, and the connection's target is x itself or an action
+    x depends on: the cycle runs through imported actions and one native checkpoint only -- no native action is on it
+    or downstream of it."""
+    imp = rng.choice(case["imports"])
+    ib, base, isc = imp["builder"], imp["base"], imp["schema"]
+    xs = [a for a in isc["actions"] if a["ctx"] is None and a["op"]["appends"] is None]
+    if not xs:
+        return None
+    x = rng.choice(xs)
+    plain = set(a["id"] for a in isc["actions"] if a["ctx"] is None)
+    ys = [x["id"]] + sorted(ib.anc.get(x["id"], set()) & plain)
+    y = rng.choice(ys)
+    if any(c["to"] == ("action", y) for c in imp["conns"]):
+        return None
+    native = case["native"]
+    keys = set(S.composite_key(c) for c in isc["checkpoints"]) | set(S.composite_key(c) for c in native["checkpoints"])
+    sh = lambda o: ("act", ("action", base + o[1][1]), o[2]) if o[0] == "act" else o
+    for _ in range(20):
+        cmp_, _two = ib.make_cmp(x["id"])
+        if S.composite_key({"gate": None, "deps": [cmp_]}) in keys:
+            continue
+        cmp_ = ("cmp", sh(cmp_[1]), cmp_[2], sh(cmp_[3]))
+        if S.composite_key({"gate": None, "deps": [cmp_]}) in keys:
+            continue
+        cid = max(c["id"] for c in native["checkpoints"] + [{"id": 0}]) + 1
+        native["checkpoints"].append({"id": cid, "alias": 500 + cid, "gate": None, "deps": [cmp_], "ctx": None})
+        imp["conns"].append({"to": ("action", y), "add": ("checkpoint", cid), "render_native_target": None})
+        return "dependency cycle through a connection that involves imported actions only"
+    return None
+
+
+@imut
 def scope_violation_through_connection(rng, case):
     """the added dependency is a checkpoint bound to a native thread group: the imported target is outside it"""
     native = case["native"]
